@@ -301,4 +301,6 @@ def dedupe(r):
         return [t, out]
     if t == 'call':
         return ['call', r[1], [dedupe(a) for a in r[2]], [[k, dedupe(v)] for k, v in r[3]]]
+    if t == 'sub':
+        return ['sub', r[1], r[2], dedupe(r[3])]
     return r
